@@ -52,7 +52,11 @@ void hash_u64(uint64_t v);
 void fault(const char* kind); // a fault of this kind actually fired
 void probe(const char* name); // a rare/interesting condition was reached
 void count(const char* name, uint64_t delta = 1);
-void mark_nontrivial(); // this run counts towards distinct_nontrivial
+void mark_nontrivial();
+// This run contains a part whose timing is the operating system's, not the tape's (e.g. a second caller running a
+// real call while the simulated one is parked). Such a run never decides a verdict on its own if it does not
+// reproduce identically.
+void mark_os_timing(); // this run counts towards distinct_nontrivial
 void add_sim_time_us(uint64_t us);
 
 // Use these so the counter names are literals with the right namespace.
